@@ -298,6 +298,24 @@ def run (cfg : Cfg) : MS → List Stmt → Except Raise MS
 
 def initMS : MS := { stack := [{ kind := .file }] }
 
+/-- The nested constructors that were *entered* while the statements were read, in order:
+    (kind of the parent, kind, name) of every container whose `FortranBase.__init__` ran
+    through (`read_docstring`, `_initialize`) so that its own statement loop started.
+    It stops where the loop stops: at the statement that raises out of the file. -/
+def openedFrom (cfg : Cfg) : MS → List Stmt → List (CK × CK × Str)
+  | _, [] => []
+  | st, s :: rest =>
+    match step cfg st s rest.isEmpty with
+    | .error _ => []
+    | .ok st' =>
+      (match st.stack, st'.stack with
+       | p :: _, c :: _ =>
+         if st'.stack.length == st.stack.length + 1 then [(p.kind, c.kind, c.name)] else []
+       | _, _ => []) ++ openedFrom cfg st' rest
+
+/-- ... for a whole file -/
+def opened (cfg : Cfg) (ss : List Stmt) : List (CK × CK × Str) := openedFrom cfg initMS ss
+
 /-- what becomes of one file -/
 inductive Outcome
   | registered (paths : List Str) (reps : List Rep)
